@@ -65,10 +65,11 @@ Section ConcProofs.
   Variable mix : N -> N.
   Variable sidx : nat -> N -> nat.
   Variable eoff : N -> Z.
+  Variable rescan : bool.
   Hypothesis sidx_lt : forall n k, 0 < n -> sidx n k < n.
   Notation WF := (WF mix).
-  Notation step := (step mix sidx eoff).
-  Notation run := (run mix sidx eoff).
+  Notation step := (step mix sidx eoff rescan).
+  Notation run := (run mix sidx eoff rescan).
 
   Definition SegsOK (m : segmap) : Prop :=
     0 < nsegs m /\ (forall i, i < nsegs m -> WF (seg m i)) /\
@@ -215,12 +216,12 @@ Section ConcProofs.
       + pose proof (evict_ok (seg m (sidx n k)) (eoff k) evict_toll k (sidx n k) n) as H1.
         destruct (tevict mix (seg m (sidx n k)) (eoff k) evict_toll k) as [t2 d]. simpl in H1.
         destruct H1 as [W' [Hh' [Hsz Hd]]]. { apply Hs; auto. } { apply seg_home; auto. }
-        intros E; inversion E; subst s'.
+        intros E; inversion E; subst s'. apply ghost_inv.
         destruct (segs_ok_set m (sidx n k) t2 (sm_count m) Hs Hi W' Hh') as [S' [_ Hsum]].
         eapply with_pc_inv; [exact I|exact Htid|exact Eth|eassumption| |].
         * unfold thr_ok; simpl; auto.
         * rewrite Hsum. subst n m. simpl. lia.
-      + intros E; inversion E; subst s'.
+      + intros E; inversion E; subst s'. apply ghost_inv.
         eapply with_pc_inv; [exact I|exact Htid|exact Eth|eassumption| |]; [unfold thr_ok; simpl; auto|subst n m; simpl; lia].
     - (* SwcSub *)
       intros E; inversion E; subst s'.
@@ -228,11 +229,9 @@ Section ConcProofs.
       + unfold thr_ok; simpl. destruct (evict_toll_deficit - d <=? 0)%Z; simpl; auto.
       + subst n m. simpl. destruct (Z.ltb_spec 0 d); destruct (evict_toll_deficit - d <=? 0)%Z; simpl; lia.
     - (* SpLoad *)
-      destruct ((i <? n) && (0 <? deficit)%Z).
-      + intros E; inversion E; subst s'.
-        eapply with_pc_inv; [exact I|exact Htid|exact Eth|eassumption| |].
-        * unfold thr_ok; simpl. destruct (sm_count m <=? cap)%Z; simpl; auto.
-        * destruct (sm_count m <=? cap)%Z; subst n m; simpl; lia.
+      destruct (sp_continue rescan n i cap deficit).
+      + destruct (sm_count m <=? cap)%Z; intros E; inversion E; subst s'; [apply ghost_inv|];
+          (eapply with_pc_inv; [exact I|exact Htid|exact Eth|eassumption| |]; [unfold thr_ok; simpl; auto|subst n m; simpl; lia]).
       + intros E; inversion E; subst s'. apply ghost_inv.
         eapply with_pc_inv; [exact I|exact Htid|exact Eth|eassumption| |]; [unfold thr_ok; simpl; auto|subst n m; simpl; lia].
     - (* SpEvict *)
@@ -242,7 +241,7 @@ Section ConcProofs.
       pose proof (evict_ok (seg m j) (eoff k) deficit k j n) as H1.
       destruct (tevict mix (seg m j) (eoff k) deficit k) as [t2 d]. simpl in H1.
       destruct H1 as [W' [Hh' [Hsz Hd]]]. { apply Hs; auto. } { apply seg_home; auto. }
-      intros E; inversion E; subst s'.
+      intros E; inversion E; subst s'. apply ghost_inv.
       destruct (segs_ok_set m j t2 (sm_count m) Hs Hj W' Hh') as [S' [_ Hsum]].
       eapply with_pc_inv; [exact I|exact Htid|exact Eth|eassumption| |].
       + unfold thr_ok; simpl; auto.
@@ -258,7 +257,7 @@ Section ConcProofs.
       pose proof (table_op_ok (seg m i) c i n) as H1.
       destruct (table_op mix (seg m i) c) as [t' delta]. simpl in H1.
       destruct H1 as [W' [Hh' [Hsz Hd]]]; auto. { apply Hs; auto. } { apply seg_home; auto. }
-      intros E; inversion E; subst s'.
+      intros E; inversion E; subst s'. apply ghost_inv.
       destruct (segs_ok_set m i t' (sm_count m) Hs Hi W' Hh') as [S' [_ Hsum]].
       eapply with_pc_inv; [exact I|exact Htid|exact Eth|eassumption| |].
       + unfold thr_ok; simpl; auto.
@@ -270,7 +269,7 @@ Section ConcProofs.
       + subst n m. simpl. lia.
     - (* ClrSeg: lock, remember Len, clear *)
       destruct (Nat.ltb_spec i n) as [Hi|Hi].
-      + destruct (lock_free s i); [|discriminate]. intros E; inversion E; subst s'.
+      + destruct (lock_free s i); [|discriminate]. intros E; inversion E; subst s'. apply ghost_inv.
         assert (W : WF (seg m i)) by (apply Hs; auto).
         destruct (tclear_spec mix (seg m i) W) as [W' [Ha' Hsz']].
         destruct (segs_ok_set m i (tclear (seg m i)) (sm_count m) Hs Hi W') as [S' [_ Hsum]].
@@ -445,7 +444,7 @@ Section ConcProofs.
   Lemma cap_step cap s s' tid p rest p' rest' :
     Inv s -> Inv s' -> CapInv cap s -> tid < length (c_thr s) -> nth tid (c_thr s) (Idle, []) = (p, rest) ->
     c_thr s' = lupd tid (p', rest') (c_thr s) ->
-    thr_capped cap (p', rest') -> (c_exh s <= c_exh s')%Z ->
+    thr_capped cap (p', rest') -> (0 <= c_exh s')%Z ->
     ((sm_count (c_map s') - sm_count (c_map s) + owed p' - owed p <= cr p' - cr p + c_exh s' - c_exh s)%Z \/
      (sm_count (c_map s') <= cap)%Z) ->
     CapInv cap s'.
@@ -455,14 +454,14 @@ Section ConcProofs.
     rewrite Hthr in L'. rewrite sum_owed_lupd in L' by auto. rewrite Hth in L'. simpl in L'.
     assert (Ct' : forall th, In th (c_thr s') -> thr_capped cap th).
     { intros th Hin. rewrite Hthr in Hin. apply in_lupd in Hin. destruct Hin as [->|Hin]; auto. }
-    constructor; auto; [lia|].
+    constructor; auto.
     unfold entries in *. destruct Hcond as [HA|HB].
     - rewrite Hthr, sum_cr_lupd by auto. rewrite Hth. simpl. lia.
     - pose proof (sum_owed_le_cr cap (c_thr s') Ct') as Hle.
       rewrite Hthr in Hle at 1. rewrite sum_owed_lupd in Hle by auto. rewrite Hth in Hle. simpl in Hle. lia.
   Qed.
 
-  Ltac capstep_ cap s tid I I' C Htid Eth := eapply (cap_step cap s _ tid _ _ _ _ I I' C Htid Eth eq_refl); simpl; [ |lia| ].
+  Ltac capstep_ cap s tid I I' C Htid Eth := eapply (cap_step cap s _ tid _ _ _ _ I I' C Htid Eth eq_refl); simpl; [ |unfold repay; lia| ].
 
   Lemma step_cap cap s tid s' : Inv s -> CapInv cap s -> step s tid = Some s' -> CapInv cap s'.
   Proof.
@@ -490,16 +489,15 @@ Section ConcProofs.
     - destruct (Z.ltb_spec cap0 (sm_count (c_map s))).
       + destruct (tevict mix _ _ _ _) as [t2 d]. intros E I' Hok'; inversion E; subst s'.
         pose proof (Hnew (SwcSub k cap0 d) rest Hok') as Hd. simpl in Hd.
-        capstep_ cap s tid I I' C Htid Eth; [split; simpl; auto|left; lia].
+        capstep_ cap s tid I I' C Htid Eth; [split; simpl; auto|left; unfold repay; lia].
       + intros E I' Hok'; inversion E; subst s'.
         capstep_ cap s tid I I' C Htid Eth; [split; simpl; auto|right; lia].
     - destruct Hpc as [-> Hd]. intros E I' Hok'; inversion E; subst s'.
       capstep_ cap s tid I I' C Htid Eth.
       + split; simpl; auto. unfold evict_toll_deficit. destruct (2 - d <=? 0)%Z; simpl; auto. split; auto. lia.
       + left. unfold evict_toll_deficit. destruct (Z.ltb_spec 0 d); destruct (Z.leb_spec (2 - d) 0); simpl; lia.
-    - destruct Hpc as [-> Hd]. destruct ((i <? nsegs (c_map s)) && (0 <? deficit)%Z).
-      + intros E I' Hok'; inversion E; subst s'.
-        destruct (Z.leb_spec (sm_count (c_map s)) cap).
+    - destruct Hpc as [-> Hd]. destruct (sp_continue rescan (nsegs (c_map s)) i cap deficit).
+      + destruct (Z.leb_spec (sm_count (c_map s)) cap); intros E I' Hok'; inversion E; subst s'.
         * capstep_ cap s tid I I' C Htid Eth; [split; simpl; auto|right; lia].
         * capstep_ cap s tid I I' C Htid Eth; [split; simpl; auto|left; lia].
       + intros E I' Hok'; inversion E; subst s'.
@@ -507,7 +505,7 @@ Section ConcProofs.
     - destruct Hpc as [-> Hd]. destruct (lock_free s _); [|discriminate]. destruct (tevict mix _ _ _ _) as [t2 d].
       intros E I' Hok'; inversion E; subst s'.
       pose proof (Hnew (SpSub k cap i deficit d) rest Hok') as Hd'. simpl in Hd'.
-      capstep_ cap s tid I I' C Htid Eth; [split; simpl; auto|left; lia].
+      capstep_ cap s tid I I' C Htid Eth; [split; simpl; auto|left; unfold repay; lia].
     - destruct Hpc as [-> [Hd Hd0]]. destruct (Z.ltb_spec 0 d); intros E I' Hok'; inversion E; subst s'.
       + capstep_ cap s tid I I' C Htid Eth; [split; simpl; auto; split; auto; lia|left; lia].
       + capstep_ cap s tid I I' C Htid Eth; [split; simpl; auto|left; lia].
@@ -515,13 +513,13 @@ Section ConcProofs.
       pose proof (table_op_nonpos cap (seg (c_map s) (sidx (nsegs (c_map s)) (call_key c))) c Hpc) as Hnp.
       destruct (table_op mix _ c) as [t' delta]. simpl in Hnp.
       intros E I' Hok'; inversion E; subst s'.
-      capstep_ cap s tid I I' C Htid Eth; [split; simpl; auto|left; lia].
+      capstep_ cap s tid I I' C Htid Eth; [split; simpl; auto|left; unfold repay; lia].
     - intros E I' Hok'; inversion E; subst s'.
       capstep_ cap s tid I I' C Htid Eth; [split; simpl; auto|left; lia].
     - destruct (i <? nsegs (c_map s)).
       + destruct (lock_free s i); [|discriminate]. intros E I' Hok'; inversion E; subst s'.
         pose proof (Hnew (ClrSub i (tlen (seg (c_map s) i))) rest Hok') as Hd'. simpl in Hd'.
-        capstep_ cap s tid I I' C Htid Eth; [split; simpl; auto|left; lia].
+        capstep_ cap s tid I I' C Htid Eth; [split; simpl; auto|left; unfold repay; lia].
       + intros E I' Hok'; inversion E; subst s'.
         capstep_ cap s tid I I' C Htid Eth; [split; simpl; auto|left; lia].
     - intros E I' Hok'; inversion E; subst s'.
@@ -566,6 +564,70 @@ Section ConcProofs.
     pose proof (run_cap cap sched _ I0 C0) as [Ct Ce Cb]. fold s in Ct, Ce, Cb.
     pose proof (sum_cr_le_inside cap _ Ct) as Hi. unfold inside.
     split; [lia|]. split; [lia|]. intros E. lia.
+  Qed.
+
+  (* The repaired spill loop (rescan = true, capacity >= 1): no call ever returns
+     from a fruitless scan, so the ghost counter stays 0 and the bound is the one the
+     property states. *)
+  Lemma step_exh0 cap s tid s' : rescan = true -> (1 <= cap)%Z -> CapInv cap s -> c_exh s = 0%Z ->
+    step s tid = Some s' -> c_exh s' = 0%Z.
+  Proof.
+    intros R Hcap C E0. unfold Conc.step.
+    destruct (nth tid (c_thr s) (Idle, [])) as [p rest] eqn:Eth.
+    destruct (Nat.leb_spec (length (c_thr s)) tid) as [|Htid]; [discriminate|].
+    assert (Hin : In (p, rest) (c_thr s)) by (rewrite <- Eth; apply nth_In; exact Htid).
+    destruct (ci_thr cap s C _ Hin) as [Hpc _]. simpl in Hpc.
+    destruct p; simpl in Hpc.
+    - destruct rest; [discriminate|]. intros E; inversion E; subst s'. exact E0.
+    - destruct (lock_free s _); [|discriminate]. intros E; inversion E; subst s'. exact E0.
+    - intros E; inversion E; subst s'. exact E0.
+    - destruct (cap0 <? sm_count (c_map s))%Z; [destruct (tevict mix _ _ _ _) as [t2 d]|];
+        intros E; inversion E; subst s'; simpl; unfold repay; lia.
+    - intros E; inversion E; subst s'. exact E0.
+    - destruct Hpc as [-> Hd]. unfold sp_continue. rewrite R. unfold evict_toll.
+      destruct (Z.ltb_spec 0 deficit); destruct (Nat.ltb_spec i (nsegs (c_map s))); destruct (Z.leb_spec 2 deficit);
+        destruct (Z.leb_spec 1 cap); simpl; try lia;
+        try (destruct (sm_count (c_map s) <=? cap)%Z); intros E; inversion E; subst s'; simpl; lia.
+    - destruct (lock_free s _); [|discriminate]. destruct (tevict mix _ _ _ _) as [t2 d].
+      intros E; inversion E; subst s'; simpl; unfold repay; lia.
+    - destruct (0 <? d)%Z; intros E; inversion E; subst s'; exact E0.
+    - destruct (lock_free s _); [|discriminate]. destruct (table_op mix _ _) as [t' delta].
+      intros E; inversion E; subst s'; simpl; unfold repay; lia.
+    - intros E; inversion E; subst s'. exact E0.
+    - destruct (i <? nsegs (c_map s)); [destruct (lock_free s i); [|discriminate]|];
+        intros E; inversion E; subst s'; simpl; unfold repay; lia.
+    - intros E; inversion E; subst s'. exact E0.
+    - destruct (lock_free s _); [|discriminate]. intros E; inversion E; subst s'. exact E0.
+    - destruct (i <? nsegs (c_map s)); [destruct (lock_free s i); [|discriminate]|];
+        intros E; inversion E; subst s'; exact E0.
+  Qed.
+
+  Lemma run_exh0 cap sched : rescan = true -> (1 <= cap)%Z ->
+    forall s, Inv s -> CapInv cap s -> c_exh s = 0%Z -> c_exh (run s sched) = 0%Z.
+  Proof.
+    intros R Hcap. induction sched as [|tid r IH]; intros s I C E0; simpl; auto.
+    destruct (step s tid) eqn:E; [|apply IH; auto].
+    apply IH; [eapply step_inv; eauto|eapply step_cap; eauto|eapply step_exh0; eauto].
+  Qed.
+
+  Theorem occupancy_bound_repaired cap m0 progs sched :
+    rescan = true -> (1 <= cap)%Z ->
+    SWF mix sidx m0 -> (sm_count m0 <= cap)%Z ->
+    (forall p, In p progs -> forall c, In c p -> capped cap c) ->
+    let s := run (init m0 progs) sched in
+    (entries s <= cap + inside s)%Z.
+  Proof.
+    intros R Hcap S Hc Hp s.
+    assert (I0 : Inv (init m0 progs)) by (apply init_inv; auto).
+    assert (C0 : CapInv cap (init m0 progs)).
+    { constructor; simpl.
+      - intros th Hin. apply in_map_iff in Hin. destruct Hin as [p [<- Hin]]. split; simpl; auto. apply Hp; auto.
+      - lia.
+      - unfold entries. simpl. rewrite sum_sizes_same, <- (s_count mix sidx m0 S).
+        assert (sum_cr (map (fun p : list call => (Idle, p)) progs) = 0%Z) by (clear; induction progs; simpl; auto).
+        lia. }
+    pose proof (run_exh0 cap sched R Hcap _ I0 C0 eq_refl) as E0. fold s in E0.
+    destruct (occupancy_bound cap m0 progs sched S Hc Hp) as [_ [_ H]]. apply H. exact E0.
   Qed.
 
   (* ------------------------------------------------------------- locks *)
@@ -648,22 +710,23 @@ Section ConcProofs.
       apply with_pc_lock; auto; [apply nsegs_set|]. eapply lock_acquire; eauto; reflexivity.
     - intros E; inversion E; subst s'. apply with_pc_lock; auto. eapply lock_same; eauto.
     - destruct (cap <? sm_count (c_map s))%Z.
-      + destruct (tevict mix _ _ _ _) as [t2 d]. intros E; inversion E; subst s'.
+      + destruct (tevict mix _ _ _ _) as [t2 d]. intros E; inversion E; subst s'. apply ghost_lock.
         apply with_pc_lock; auto; [apply nsegs_set|]. eapply lock_same; eauto.
-      + intros E; inversion E; subst s'. apply with_pc_lock; auto. eapply lock_release; eauto; reflexivity.
+      + intros E; inversion E; subst s'. apply ghost_lock. apply with_pc_lock; auto. eapply lock_release; eauto; reflexivity.
     - intros E; inversion E; subst s'. apply with_pc_lock; auto. eapply lock_release; eauto; try reflexivity.
       destruct (evict_toll_deficit - d <=? 0)%Z; reflexivity.
-    - destruct ((i <? nsegs (c_map s)) && (0 <? deficit)%Z); intros E; inversion E; subst s'.
-      + apply with_pc_lock; auto. eapply lock_same; eauto. destruct (sm_count (c_map s) <=? cap)%Z; reflexivity.
+    - destruct (sp_continue rescan (nsegs (c_map s)) i cap deficit); [destruct (sm_count (c_map s) <=? cap)%Z|]; intros E; inversion E; subst s'.
+      + apply ghost_lock. apply with_pc_lock; auto. eapply lock_same; eauto.
+      + apply with_pc_lock; auto. eapply lock_same; eauto.
       + apply ghost_lock. apply with_pc_lock; auto. eapply lock_same; eauto.
     - destruct (lock_free s _); [|discriminate]. destruct (tevict mix _ _ _ _) as [t2 d].
-      intros E; inversion E; subst s'. apply with_pc_lock; auto; [apply nsegs_set|]. eapply lock_same; eauto.
+      intros E; inversion E; subst s'. apply ghost_lock. apply with_pc_lock; auto; [apply nsegs_set|]. eapply lock_same; eauto.
     - destruct (0 <? d)%Z; intros E; inversion E; subst s'; apply with_pc_lock; auto; eapply lock_same; eauto.
     - destruct (lock_free s _); [|discriminate]. destruct (table_op mix _ _) as [t' delta].
-      intros E; inversion E; subst s'. apply with_pc_lock; auto; [apply nsegs_set|]. eapply lock_acquire; eauto; reflexivity.
+      intros E; inversion E; subst s'. apply ghost_lock. apply with_pc_lock; auto; [apply nsegs_set|]. eapply lock_acquire; eauto; reflexivity.
     - intros E; inversion E; subst s'. apply with_pc_lock; auto. eapply lock_release; eauto; reflexivity.
     - destruct (i <? nsegs (c_map s)).
-      + destruct (lock_free s i); [|discriminate]. intros E; inversion E; subst s'.
+      + destruct (lock_free s i); [|discriminate]. intros E; inversion E; subst s'. apply ghost_lock.
         apply with_pc_lock; auto; [apply nsegs_set|]. eapply lock_acquire; eauto; reflexivity.
       + intros E; inversion E; subst s'. apply with_pc_lock; auto. eapply lock_same; eauto.
     - intros E; inversion E; subst s'. apply with_pc_lock; auto. eapply lock_release; eauto; reflexivity.
@@ -753,9 +816,8 @@ Section ConcProofs.
       + intros E; inversion E; subst s'. apply rd_generic; simpl; auto.
     - intros E; inversion E; subst s'. apply rd_generic; simpl; auto.
       destruct (evict_toll_deficit - d <=? 0)%Z; simpl; auto.
-    - destruct ((i <? nsegs (c_map s)) && (0 <? deficit)%Z); intros E; inversion E; subst s'.
-      + apply rd_generic; simpl; auto. destruct (sm_count (c_map s) <=? cap)%Z; simpl; auto.
-      + apply rd_generic; simpl; auto.
+    - destruct (sp_continue rescan (nsegs (c_map s)) i cap deficit); [destruct (sm_count (c_map s) <=? cap)%Z|]; intros E; inversion E; subst s';
+        apply rd_generic; simpl; auto.
     - destruct (lock_free s _); [|discriminate]. destruct (tevict mix _ _ _ _) as [t2 d].
       intros E; inversion E; subst s'. apply rd_generic; simpl; auto. apply nsegs_set.
     - destruct (0 <? d)%Z; intros E; inversion E; subst s'; apply rd_generic; simpl; auto.
@@ -821,7 +883,18 @@ Proof.
   lia.
 Qed.
 
-Definition c_run := run go_mix go_sidx go_eoff.
+(* Which spill loop the source has: the condition of SetWithCap's for statement is
+   read from /repo (Gen.C16.spill_cond_src) and must be one of the two the model
+   knows — any other text breaks this tie and with it the check.
+     plain  : i < uint(len(m.segments)) && deficit > 0
+     rescan : deficit > 0 && (i < n || (deficit == 2 && capacity > 0))     (props/C16/fix.patch) *)
+Lemma gen_spill_cond_known :
+  (spill_cond_src = [spill_cond_plain] /\ go_rescan = false) \/ (spill_cond_src = [spill_cond_rescan] /\ go_rescan = true).
+Proof. vm_compute. first [left; split; reflexivity | right; split; reflexivity]. Qed.
+
+Definition c_run := run go_mix go_sidx go_eoff false.          (* the plain loop *)
+Definition c_run_src := run go_mix go_sidx go_eoff go_rescan.  (* the loop the source has *)
+Definition c_run_rescan := run go_mix go_sidx go_eoff true.    (* the repaired loop *)
 Definition only_swc_cap (cap : Z) (progs : list (list call)) : Prop :=
   forall p, In p progs -> forall c, In c p -> exists k v, c = CSwc k v cap.
 
@@ -850,6 +923,13 @@ Proof.
     repeat (destruct Hp as [<-|Hp]; [simpl in Hc; destruct Hc as [<-|[]]; eauto|]). destruct Hp.
   - destruct occ_witness as [A [B [C [_ [_ D]]]]]. split; [exact A|]. rewrite B, C, D. lia.
 Qed.
+
+(* the same schedule against the repaired loop: the two parked writers go round
+   again, each finds the other's (or the fourth writer's) entry; one entry is left *)
+Example occ_witness_rescan :
+  let s := c_run_rescan (init (new_segmap 4 0) occ_progs) (occ_sched ++ repeat 1 100 ++ repeat 2 100) in
+  quiescent s = true /\ inside s = 0%Z /\ entries s = 1%Z /\ sm_count (c_map s) = 1%Z /\ c_exh s = 0%Z.
+Proof. vm_compute. repeat split; reflexivity. Qed.
 
 (* Clear concurrent with writers (the interleaving that lost a Set before aae41ee): now exact *)
 Definition clr_progs : list (list call) := [[CSet 9 1]; [CClear]; [CSet 15 2]].
